@@ -159,8 +159,12 @@ def extra_families(rng, base, count):
     loop terminates): orphan states without a losing state; twins spelt with a shared list object (same owner / other
     owner); two final states listed in descending order"""
     base = [gm for gm in base if gm[1].get("style") in ("stopping", "exact")]
+    huge = []
+    for g, m in orphan_games(rng, count):
+        # the same kind of acyclic game with rewards of the order 1e21 (exact binary64 values): far beyond sys.maxsize
+        huge.append((dict(g, rewards=[float(x) * 2.0 ** 70 for x in g["rewards"]]), dict(m, huge=True)))
     return (orphan_games(rng, count) + twin_games(base, rng, count) + twin_games(base, rng, count, cross=True)
-            + two_final_games(base, rng, count))
+            + two_final_games(base, rng, count) + huge)
 
 
 def orphan_games(rng, count):
